@@ -1,5 +1,6 @@
 import P9Model.Driver.Parse
 import P9Model.Client.Version
+import P9Model.Client.Stub
 import P9Model.Client.Chunk
 import P9Model.Wire.Registry
 namespace P9.Driver
@@ -50,7 +51,10 @@ def kneg (t : Tokens) : String :=
     let wr := chunk c.payload acceptAll (t.nat "wlen") (t.nat "woff")
     hd ++ s!" ok=1 ver={c.version} ms={c.msize} pl={c.payload}" ++
       s!" rcounts={commaNats (rd.calls.map (·.1))} rn={rd.total} rerr={errOut rd.err} rcontent=ok" ++
-      s!" wframes={commaNats (wr.calls.map fun c => c.1 + 23)} wn={wr.total} werr={errOut wr.err} wcontent=ok oversize=0"
+      s!" wframes={commaNats (wr.calls.map fun c => c.1 + 23)} wn={wr.total} werr={errOut wr.err} wcontent=ok oversize=0" ++
+      -- the version-gated requests follow the version adopted from the reply (`Client.firstType`, C03 `version_types`)
+      s!" mkdir={Client.firstType c.version .mkdir} create={Client.firstType c.version .create}" ++
+      s!" symlink={Client.firstType c.version .symlink} mknod={Client.firstType c.version .mknod} wga={Client.firstType c.version .walkGetAttr}"
 
 def klfs (_ : Tokens) : String := s!"lfs={largestFixed}"
 
